@@ -680,9 +680,21 @@ func (c06) Gen(rng *rand.Rand, tier string, idx int) Case {
 		var e *c06xn
 		isBool := false
 		tvl := idx%6 == 4
+		flip := idx%12 == 3
 		for tries := 0; ; tries++ {
 			if tvl {
 				e, isBool = g.tvl()
+				break
+			}
+			if flip {
+				// a bare arithmetic expression (no quote, no parenthesis: the custom engine answers first); an ill-typed
+				// row on which that engine gives up comes early, rows with NULL operands after it must be unaffected
+				ops := []string{"add", "sub", "mul"}
+				e = &c06xn{k: "arith", op: ops[g.rng.Intn(3)], kids: []*c06xn{{k: "col", s: "a"}, {k: "col", s: "b"}}}
+				if g.rng.Intn(2) == 0 {
+					e = &c06xn{k: "arith", op: "add", kids: []*c06xn{e, {k: "lit", whole: 1 + g.rng.Intn(5)}}}
+				}
+				g.tag("fast-path-then-ill-typed-row")
 				break
 			}
 			switch rng.Intn(5) {
@@ -730,6 +742,15 @@ func (c06) Gen(rng *rand.Rand, tier string, idx int) Case {
 		// a fully typed, NULL-free row is always there
 		rows = append(rows, []string{"row", "i:" + strconv.Itoa(rng.Intn(9)), c06fbits(float64(rng.Intn(20)) / 4), "s:" + hx("foo"), "s:" + hx("q"), "b:t", "n"})
 		rng.Shuffle(len(rows), func(i, j int) { rows[i], rows[j] = rows[j], rows[i] })
+		if flip {
+			bad := g.row()
+			bad[1] = []string{"s:" + hx("foo"), "b:t", "s:" + hx("7")}[rng.Intn(3)]
+			nul := g.row()
+			nul[1], nul[2] = []string{"n", "m"}[rng.Intn(2)], "i:5"
+			nul2 := g.row()
+			nul2[1], nul2[2] = "i:4", []string{"n", "m"}[rng.Intn(2)]
+			rows = append([][]string{rows[0], bad, nul, nul2}, rows[1:]...)
+		}
 		c.Ops = append(c.Ops, rows...)
 		// history: some rows once more, after rows of other types went through the same caches
 		for i := 0; i < 4; i++ {
